@@ -210,6 +210,12 @@ def note_int_arith(interp, operands, node):
         if isinstance(v, Vec) and v.dtype in ('i8', 'u1') and any(X.data_atoms(e.d) for e in v.els()):
             interp.event('int-arith', node=node)
             return
+    for v in operands:
+        if isinstance(v, Vec) and getattr(v, 'narrow', False) and any(X.data_atoms(e.d) for e in v.els()):
+            # float32 / float16 data used without promotion to float64: sums, differences and the comparison with a (rounded) bound are
+            # carried out in the narrow width
+            interp.event('narrow-float-arith', node=node)
+            return
 
 
 def dtype_of(v):
@@ -382,6 +388,8 @@ def compare_model(M, interp, op, a, b, node):
     (da, _), (db, _) = dtype_of(a), dtype_of(b)
     if (da == 'M8') != (db == 'M8') and 'O' not in (da, db):
         raise AbsRaise(ExcVal('TypeError', ('comparison of datetime64 with a number',)), node)
+    if getattr(a, 'narrow', False) or getattr(b, 'narrow', False):
+        note_int_arith(interp, tuple(x for x in (a, b) if getattr(x, 'narrow', False)), node)
     pairs, tmpl = broadcast(interp, a, b, node)
     for ea, eb in pairs:
         for e in (ea, eb):
